@@ -535,6 +535,27 @@ def sql_executes(fn):
     return out
 
 
+def where_clause(t):
+    """Normalised text of the WHERE clause of an SQL statement (upper case, no blanks, no parentheses, no
+    trailing semicolon), or None when the statement has none."""
+    u = " ".join(t.upper().split())
+    i = u.find(" WHERE ")
+    if i < 0:
+        return None
+    w = u[i + 7:]
+    for kw in (" ORDER BY ", " LIMIT ", " GROUP BY "):
+        j = w.find(kw)
+        if j >= 0:
+            w = w[:j]
+    return w.replace(" ", "").replace("(", "").replace(")", "").rstrip(";")
+
+
+def where_is_key_only(t):
+    """The statement selects its rows by `query=?` and by nothing else: an extra conjunct narrows a DELETE
+    (rows of the key survive it), an extra disjunct widens it (rows of other keys are hit)."""
+    return where_clause(t) in ("QUERY=?", "?=QUERY", "QUERY==?", "QUERYIS?")
+
+
 def sql_family(repo):
     base = repo.cls(CACHE, "SQLCache")
     return [ci for ci in repo.classes_in(CACHE) if ci.is_subclass_of("SQLCache")]
@@ -797,7 +818,7 @@ def rule_one_row_per_key(chk, repo, rid):
                     dn = cfg.node_of(d)
                     same_key = len(d.args) > 1 and len(c.args) > 1 and isinstance(d.args[1], (ast.List, ast.Tuple)) \
                         and isinstance(c.args[1], (ast.List, ast.Tuple)) and d.args[1].elts and c.args[1].elts \
-                        and U(d.args[1].elts[0]) == U(c.args[1].elts[0]) and "WHERE QUERY=?" in dt.upper().replace(" ", "").replace("WHEREQUERY", "WHERE QUERY")
+                        and U(d.args[1].elts[0]) == U(c.args[1].elts[0]) and len(d.args[1].elts) == 1 and where_is_key_only(dt)
                     xl = {(txt, pol) for _, txt, pol, _ in dominating_literals(cfg, x)}
                     lits = [l for l in dominating_literals(cfg, dn) if (l[1], l[2]) not in xl]
                     fl = [txt for _, txt, pol, _ in lits if pol and txt.startswith("self.")]
@@ -807,7 +828,9 @@ def rule_one_row_per_key(chk, repo, rid):
                         if fl:
                             flag = fl[0]
                 n_inst += 1
-                chk.ob(rid, f"{ci.qual}.{mn}", ok, "INSERT preceded by DELETE ... WHERE query=? of the same key",
+                chk.ob(rid, f"{ci.qual}.{mn}", ok, "INSERT preceded by DELETE ... WHERE query=? of the same key" if ok else
+                       "no DELETE whose WHERE clause is exactly `query=?` (bound to the inserted key) reaches this INSERT: "
+                       "rows of the key (e.g. the data-less progress row) survive, get() keeps reading the oldest one",
                        c, mod, key="delete-before-insert")
     chk.floor(rid, n_inst, 2, "INSERT statements")
     if flag is None:
@@ -1129,7 +1152,8 @@ def rule_location_agreement(chk, repo, rid):
         fn = ci.methods.get(mn)
         ex = [(c, t) for c, w, t in sql_executes(fn) if t and w in ("SELECT", "DELETE")]
         ok = bool(ex) and all("WHEREQUERY=?" in t.upper().replace(" ", "").replace("\n", "") and len(c.args) > 1
-                              and U(c.args[1]) == f"[{params(fn)[1]}]" for c, t in ex)
+                              and U(c.args[1]) == f"[{params(fn)[1]}]" for c, t in ex) \
+            and all(where_is_key_only(t) for c, t in ex if t.strip().upper().startswith("DELETE"))
         chk.ob(rid, f"{ci.qual}.{mn}", ok, "row selected by `WHERE query=?` bound to the key", fn, mod, key="sql:where")
     for mn in ("store", "store_metadata"):
         fn = ci.methods.get(mn)
